@@ -85,7 +85,10 @@ def gen(tier, rng):
              ["10 A=1", "20 IF A=1 THEN END ELSE A=5", "30 PRINT A"],
              ["10 FOR I=1 TO 3", '20 IF I=2 THEN PRINT "two":STOP ELSE PRINT "other";I', "30 NEXT I", '40 PRINT "end"'],
              ["10 A=0", '20 IF A=1 THEN PRINT "T" ELSE PRINT "F":STOP', '30 PRINT "after"'],
-             ["10 A=1", '20 IF A=1 THEN IF A=1 THEN PRINT "TT":STOP ELSE PRINT "TF" ELSE PRINT "F"', '30 PRINT "after"']]
+             ["10 A=1", '20 IF A=1 THEN IF A=1 THEN PRINT "TT":STOP ELSE PRINT "TF" ELSE PRINT "F"', '30 PRINT "after"'],
+             # STOP as the very last statement of the program, at top level and inside a subroutine inside a loop
+             ["10 A=1", "20 PRINT A:STOP"],
+             ["10 FOR I=1 TO 2", "20 GOSUB 50", "30 NEXT I", '40 PRINT "DONE":END', '50 PRINT "SUB";I:STOP']]
     pi = nprog
     for prog in fixed:
         plain = [l.replace(":STOP", "").replace("THEN END ELSE", "THEN A=A ELSE").replace("STOP ELSE", "A=A ELSE") for l in prog]
@@ -269,6 +272,12 @@ def cross_monitor(cases, impl, model):
             if kind == "stop" and len(re.findall(r"E:\[0 ", impl[i])) > STOP_CONTS:
                 # the inserted STOP sits in a loop that runs more often than CONTs were sent: the run is incomplete by construction
                 stats["stop_out_of_conts"] = stats.get("stop_out_of_conts", 0) + 1
+                continue
+            if kind == "stop" and re.search(r"E:\[17 ", impl[i]):
+                # every CONT of these sessions is typed directly behind a ?BREAK IN n: it must resume, wherever the STOP stands
+                # (also as the very last statement of the program)
+                fails.append((i, "resume: CONT typed directly after ?BREAK IN n was answered CAN'T CONTINUE\n%s\n  %s" % (
+                    c.sig, sess.decode_events(impl[i])[-300:])))
                 continue
             want = flatten(program_output(ref))
             got_raw = flatten(program_output(impl[i]), keep_breaks=True)
